@@ -44,6 +44,8 @@ def run(ctx):
                 'mode and skip_queue_when_not_needed mode, octopus and no_octopus, build reports drawn from the five '
                 'statuses on current and superseded tips; evaluation = one Bert-E job; non-trivial = distinct '
                 '(mode, strategy, moved destinations, status) among jobs that moved a destination' % n)
+    from lib import authoropts
+    authoropts.check(ctx, relevant=['bypass_build_status'])     # "bypassed ... by per-author settings": the settings loader
     for h in corpus():
         sysrun.run(ctx, [0], 0, MONITORS, replay_history=h)
         ctx.count('corpus_histories')
